@@ -55,7 +55,7 @@ def transition_table(repo, fi, member_name, ctx_field, opaque):
                 acts.append("reset" if e[2] == "None" else "open")
             elif e[0] == "summary" and ".merge(" in e[1]:
                 acts.append("merge")
-        if lf.panic:
+        if lf.panic or (isinstance(lf.value, Tag) and lf.value.name == "Err"):
             acts.append("conflict")
         if lf.unsupported:
             acts.append("?" + lf.unsupported)
